@@ -221,6 +221,16 @@ RetTreeLastNext == steps < MaxSteps /\
   ELSE \E f \in {<<"#">>, <<"a">>, <<"a","#">>, <<"a","+">>, <<"a","b","c">>} : Subscribe(c2, 1, << <<f, 1>> >>)
 RetTreeLastSpec == BothUp(RTNames) /\ [][RetTreeLastNext]_vars
 
+\* retained messages stored from QoS 1 publishes of a client that repeats its deliveries (DUP flag) and numbers them alike:
+\* what is stored is the application message; flags and identifier of the delivery it came in are not part of it.  All
+\* paths, then one probe subscription at QoS 1 (single filter, wildcard, or all topics in one request)
+RDNames == {<<"a">>, <<"a","b">>, <<"d">>}
+RetDupLastNext == steps < MaxSteps /\
+  IF steps < MaxSteps - 1 THEN \E t \in RDNames, dup \in BOOLEAN : Publish(c1, t, 1, TRUE, "y", 4, dup)
+  ELSE \/ \E f \in {<<"#">>, <<"a","#">>} : Subscribe(c2, 1, << <<f, 1>> >>)
+       \/ Subscribe(c2, 1, << <<<<"a">>, 1>>, <<<<"a","b">>, 1>>, <<<<"d">>, 1>> >>)
+RetDupLastSpec == BothUp(RDNames) /\ [][RetDupLastNext]_vars
+
 (* C09 wills: connect / end sequences on client id k1 (fresh and resumed sessions, changing
    will), witness c2 subscribed to '#'                                                     *)
 WNames == {<<"w">>, <<"v">>}
